@@ -305,6 +305,9 @@ pub struct Plan {
     /// simulated clock for the progress reporting: every reading advances time by this many ms
     #[serde(default, skip_serializing_if = "Option::is_none")]
     pub clock_step_ms: Option<u64>,
+    /// a catchable signal raised by the process on itself before event `seq`: (seq, signal number)
+    #[serde(default, skip_serializing_if = "Option::is_none")]
+    pub signal: Option<(u64, i32)>,
 }
 
 impl Plan {
@@ -360,6 +363,9 @@ impl Plan {
         if let Some(ms) = self.clock_step_ms {
             s += &format!("clock {}\n", ms);
         }
+        if let Some((at, signo)) = self.signal {
+            s += &format!("signal {} {}\n", at, signo);
+        }
         if let Some((k, a)) = self.crashw {
             match a {
                 Some(n) => s += &format!("crashw {} after {}\n", k, n),
@@ -376,7 +382,7 @@ impl Plan {
     }
     /// does this plan contain a fault that must make the run fail / die?
     pub fn has_failing(&self) -> bool {
-        !self.fails.is_empty() || !self.limits.is_empty() || self.crash.is_some() || self.fdmax.is_some() || !self.failw.is_empty() || self.crashw.is_some() || self.crashr.is_some() || !self.failr.is_empty() || self.vanishr.is_some()
+        !self.fails.is_empty() || !self.limits.is_empty() || self.crash.is_some() || self.fdmax.is_some() || !self.failw.is_empty() || self.crashw.is_some() || self.crashr.is_some() || !self.failr.is_empty() || self.vanishr.is_some() || self.signal.is_some()
     }
 }
 
@@ -423,6 +429,10 @@ pub struct RunSpec {
     /// the dump folder is a sub-directory of the data directory
     #[serde(default, skip_serializing_if = "is_false")]
     pub dump_in_data: bool,
+    /// address-space limit of the process in MiB (RLIMIT_AS, what `ulimit -v` sets): an allocation sized by
+    /// untrusted input fails here although it would be a harmless lazy mapping on a big machine
+    #[serde(default, skip_serializing_if = "Option::is_none")]
+    pub vlimit_mb: Option<u64>,
 }
 fn yes() -> bool {
     true
@@ -446,6 +456,7 @@ impl RunSpec {
             tty: false,
             path_style: 0,
             dump_in_data: false,
+            vlimit_mb: None,
         }
     }
 }
